@@ -47,7 +47,7 @@ fn sorted_map(m: &std::collections::HashMap<String, u64>) -> String {
 // ------------------------------------------------------------------------------------------
 
 pub const BATCH_PRESETS: &[&str] = &[
-    "gcounter", "pncounter", "orset", "vclock", "executor", "list", "set", "hash", "sorted-set", "transaction", "wal", "redis-dst", "runner", "streaming", "compaction",
+    "with-seed", "gcounter", "pncounter", "orset", "vclock", "executor", "list", "set", "hash", "sorted-set", "transaction", "wal", "redis-dst", "runner", "streaming", "compaction",
 ];
 
 fn crdt_line(r: &redis_sim::replication::crdt_dst::CRDTDSTResult) -> String {
@@ -82,14 +82,14 @@ pub fn batch(preset: &str, seed: u64, ops: usize, lines: &mut Vec<String>, raw: 
         }};
     }
     macro_rules! crdt {
-        ($batch:ident, $H:ident) => {{
+        ($batch:ident, $new:path) => {{
             let rs = $batch(seed, n, ops, CRDTDSTConfig::moderate);
             for r in &rs {
                 b.push(crdt_line(r));
             }
             raw.push(format!("summary {}", redis_sim::replication::crdt_dst::summarize_batch(&rs)));
             for i in 0..n {
-                let mut h = $H::new(CRDTDSTConfig::moderate(seed + i as u64));
+                let mut h = $new(CRDTDSTConfig::moderate(seed + i as u64));
                 h.run(ops);
                 h.sync_all();
                 h.check_convergence();
@@ -97,11 +97,30 @@ pub fn batch(preset: &str, seed: u64, ops: usize, lines: &mut Vec<String>, raw: 
             }
         }};
     }
+    macro_rules! with_seed {
+        ($ws:path, $new:path, $cn:path) => {{
+            // `with_seed(s)` is `new(Config::new(s))`
+            let mut a = $ws(seed);
+            a.run(ops);
+            let mut c = $new($cn(seed));
+            c.run(ops);
+            b.push(format!("{:?}", a.result()));
+            s.push(format!("{:?}", c.result()));
+        }};
+    }
     match preset {
-        "gcounter" => crdt!(run_gcounter_batch, GCounterDSTHarness),
-        "pncounter" => crdt!(run_pncounter_batch, PNCounterDSTHarness),
-        "orset" => crdt!(run_orset_batch, ORSetDSTHarness),
-        "vclock" => crdt!(run_vectorclock_batch, VectorClockDSTHarness),
+        "with-seed" => {
+            with_seed!(ExecutorDSTHarness::with_seed, ExecutorDSTHarness::new, ExecutorDSTConfig::new);
+            with_seed!(ListDSTHarness::with_seed, ListDSTHarness::new, ListDSTConfig::new);
+            with_seed!(SetDSTHarness::with_seed, SetDSTHarness::new, SetDSTConfig::new);
+            with_seed!(HashDSTHarness::with_seed, HashDSTHarness::new, HashDSTConfig::new);
+            with_seed!(SortedSetDSTHarness::with_seed, SortedSetDSTHarness::new, SortedSetDSTConfig::new);
+            with_seed!(TransactionDSTHarness::with_seed, TransactionDSTHarness::new, TransactionDSTConfig::new);
+        }
+        "gcounter" => crdt!(run_gcounter_batch, GCounterDSTHarness::new),
+        "pncounter" => crdt!(run_pncounter_batch, PNCounterDSTHarness::new),
+        "orset" => crdt!(run_orset_batch, ORSetDSTHarness::new),
+        "vclock" => crdt!(run_vectorclock_batch, VectorClockDSTHarness::new),
         "executor" => typed!(run_executor_batch, redis_sim::redis::executor_dst::summarize_executor_batch, ExecutorDSTHarness, ExecutorDSTConfig, chaos),
         "list" => typed!(run_list_batch, redis_sim::redis::list_dst::summarize_list_batch, ListDSTHarness, ListDSTConfig, high_churn),
         "set" => typed!(run_set_batch, redis_sim::redis::set_dst::summarize_set_batch, SetDSTHarness, SetDSTConfig, high_churn),
@@ -295,6 +314,13 @@ pub fn dst_api(preset: &str, seed: u64, steps: usize, lines: &mut Vec<String>, r
             let cs = sim.crash_simulator().stats();
             lines.push(format!("crash-stats crashes={} recoveries={} by_reason={} loss={} avg={}", cs.total_crashes, cs.total_recoveries, sorted_map(&cs.crashes_by_reason), cs.total_state_loss_events, cs.average_recovery_time_ms.to_bits()));
             raw.push(format!("buggify checks={} triggers={}", sorted_map(&res.buggify_stats.checks), sorted_map(&res.buggify_stats.triggers)));
+            // BuggifyStats' own API: summary (sorted by fault id), trigger_rate, merge (per-key sums)
+            let mut merged = buggify::BuggifyStats::new();
+            merged.merge(&res.buggify_stats);
+            merged.merge(&res.buggify_stats);
+            merged.record_check(faults::process::CRASH);
+            lines.push(format!("buggify-summary crash_checks={} | {} | rate={} | merged checks={} triggers={}", res.buggify_stats.checks.get(faults::process::CRASH).copied().unwrap_or(0),
+                res.buggify_stats.summary().replace('\n', " / "), res.buggify_stats.trigger_rate(faults::process::CRASH).to_bits(), sorted_map(&merged.checks), sorted_map(&merged.triggers)));
         }
         // CrashSimulator on its own: checkpoints, state loss, explicit recovery completion
         "crash" => {
